@@ -108,3 +108,64 @@ func unrunnableIntervals(c *vk.Ctx) {
 		}
 	})
 }
+
+// initiatorRelogon: an initiating session logs on, the acceptor's answer carries another heartbeat interval than the
+// one proposed, the peer logs the session out, and the application asks for a new logon (LogonRequest). The second
+// Logon carries what the first one carried: the configured interval, encryption method and credentials.
+func initiatorRelogon(c *vk.Ctx) {
+	n := c.Pick(24, 400)
+	vk.Parallel(n, runtime.NumCPU(), func(i int) {
+		r0 := c.Rand("c06-relogon", int64(i))
+		hb := 5 + r0.Intn(50)
+		answerHb := 5 + r0.Intn(50)
+		if i%4 == 0 {
+			answerHb = hb
+		}
+		cred := [][2]string{{"me", "secret"}, {"", "token"}, {"me", ""}, {"", ""}}[i%4]
+		desc := fmt.Sprintf("initiator configured 108=%d 553=%q 554=%q; the answer carries 108=%d; Logout by the peer; LogonRequest", hb, cred[0], cred[1], answerHb)
+		replay := map[string]interface{}{"part": "initiator-relogon", "case": desc, "index": i}
+		r, err := rig.NewStepRig(rig.StepCfg{Role: rig.Initiator, HeartBtInt: hb, Limits: &session.IntLimits{Min: 1, Max: 60}, Username: cred[0], Password: cred[1]})
+		if err != nil {
+			c.Inconclusive("rig: " + err.Error())
+			return
+		}
+		defer r.Close()
+		if len(r.InitOuts) != 1 || r.InitOuts[0].Type != "A" {
+			return // judged by the histories
+		}
+		first := r.InitOuts[0].Fields
+		p := rig.NewPeer()
+		if res := r.Inbound(p.Logon(answerHb, "0")); res.TimedOut || !res.Logged {
+			return
+		}
+		for k := 0; k < i%3; k++ {
+			r.Inbound(p.Heartbeat())
+		}
+		if res := r.Inbound(p.Logout()); res.TimedOut || res.Logged {
+			return
+		}
+		res := r.Do(func() error { return r.S.LogonRequest() })
+		if res.TimedOut {
+			c.Inconclusive("watchdog in LogonRequest: " + desc)
+			return
+		}
+		c.Eval(vk.Hash64([]byte(desc)), true)
+		c.Count("initiator_second_logons", 1)
+		var logons []rig.Out
+		for _, o := range res.Outs {
+			if o.Type == "A" {
+				logons = append(logons, o)
+			}
+		}
+		if len(logons) != 1 {
+			c.Violate("C06/initiator-second-logon-not-sent", fmt.Sprintf("%s: LogonRequest emitted %s (error %v), want one Logon", desc, types(res.Outs), res.SendErr), replay)
+			return
+		}
+		for _, tag := range []string{rig.THeartBt, rig.TEncrypt, rig.TUser, rig.TPass} {
+			if a, b := fixref.GetS(first, tag), fixref.GetS(logons[0].Fields, tag); a != b {
+				c.Violate("C06/initiator-logon-fields/second-logon", fmt.Sprintf("%s: the second Logon carries %s=%q, the first (configured) one carried %q", desc, tag, b, a), replay)
+				return
+			}
+		}
+	})
+}
